@@ -18,26 +18,65 @@ def driver(ctx):
     return vlib.build_driver(ctx, "pkg/curl", ["curl/driver_test.go"], name="curl_default")
 
 
-def run(ctx):
-    q = ctx.quick()
-    vlib.model_check(ctx, "CurlMC", constants={"Depth": 4 if q else 5, "W": 2 if q else 2}, timeout=1500)
-    if not q:
-        vlib.model_check(ctx, "CurlMC", constants={"Depth": 3, "W": 3}, timeout=1500, name="M_CurlMC_W3")
-    binp = driver(ctx)
-    d = ctx.rundir("drv")
-    vlib.run_driver(ctx, binp, "record", d + "/t.ndjson", n=16 if q else 300,
-                    extra_env={"VERIF_FOCUS": "sponge", "VERIF_AUDIT": "8" if q else "150"})
-    ev = vlib.read_ndjson(d + "/t.ndjson")
-    vlib.note_events(ctx, [e for e in ev if e["op"] not in ("curl.pool",)], keep=0)
-    for e in [x for x in ev if x["op"] in ("curl.absorb", "curl.squeeze")][:3]:
-        ctx.samples.append(dict(op=e["op"], **{"in": e["in"]}, err=e["out"].get("err")))
-    bad = vlib.validate_trace(ctx, "CurlTrace", ev, stateful=True, chunk=1)
-    # a stateful rejection is confirmed by re-running the whole trace it belongs to
+import glob, os, re, shutil, subprocess
+LAST_RE = re.compile(r'/\\ last = <<"(\w+)", (\d+), (<<.*>>)>>')
+
+
+def tlc_histories(ctx, num, depth):
+    """Leg G: behaviours of the CurlMC model (TLC -simulate) turned into histories for real Curl objects: a model block
+    (one trit) becomes a pool key (-1 -> key 1, 0 -> the zero block, 1 -> key 2), instances keep their numbers."""
+    d = ctx.rundir("sim_CurlMC")
+    for f in glob.glob(os.path.join(vlib.SPEC, "*.tla")):
+        shutil.copy(f, d)
+    open(os.path.join(d, "sim.cfg"), "w").write("INIT Init\nNEXT Next\nCONSTANTS\n  HL = 1\n  W = 3\n  RND = 2\n  Depth = %d\nCHECK_DEADLOCK FALSE\n" % depth)
+    os.makedirs(os.path.join(d, "b"), exist_ok=True)
+    cmd = ["java", "-Xss64m", "-cp", vlib.TLA_CP, "tlc2.TLC", "-workers", "1", "-simulate", "file=b/t,num=%d" % num, "-depth", str(depth + 1),
+           "-seed", str(ctx.seed * 11 + 3), "-metadir", os.path.join(d, "meta"), "-config", "sim.cfg", "CurlMC.tla"]
+    r = subprocess.run(cmd, cwd=d, capture_output=True, text=True, timeout=300)
+    shutil.rmtree(os.path.join(d, "meta"), ignore_errors=True)
+    m = re.search(r"The number of states generated: (\d+)", r.stdout)
+    if m:
+        ctx.states += int(m.group(1))
+        ctx.transitions += int(m.group(1))
+    hist = []
+    for k, f in enumerate(sorted(glob.glob(os.path.join(d, "b", "t_*")))):
+        ops = [dict(op="curl.pool", **{"in": dict(seed=ctx.seed * 1000 + k, n=12)}), dict(op="curl.new", **{"in": dict(id=1)})]
+        absorbed = {1: 0, 2: 0}
+        for mm in LAST_RE.finditer(open(f).read()):
+            name, inst, arg = mm.group(1), int(mm.group(2)), mm.group(3)
+            if name == "absorb":
+                lanes = [[{-1: 1, 0: 0, 1: 2}[int(t)]] for t in re.findall(r"-?\d+", arg)]
+                ops.append(dict(op="curl.absorb", **{"in": dict(id=inst, lanes=lanes, nblocks=1, bad="")}))
+                absorbed[inst] = absorbed.get(inst, 0) + 1
+            elif name == "squeeze":
+                ops.append(dict(op="curl.squeeze", **{"in": dict(id=inst, nlanes=[3, 64][k % 2], nblocks=1, bad="",
+                                                                audit=([k % 3] if absorbed.get(inst, 0) <= 2 and k % 4 == 0 else []))}))
+            elif name == "reset":
+                ops.append(dict(op="curl.reset", **{"in": dict(id=inst)}))
+                absorbed[inst] = 0
+            elif name == "clone":
+                ops.append(dict(op="curl.clone", **{"in": dict(id=1, newid=2)}))
+                absorbed[2] = absorbed.get(1, 0)
+            elif name == "rejected":
+                bad = ["batch0", "batch65", "len"][len(ops) % 3]
+                if len(ops) % 2:
+                    ops.append(dict(op="curl.squeeze", **{"in": dict(id=inst, nlanes=5, nblocks=1, bad=bad, audit=[])}))
+                else:
+                    ops.append(dict(op="curl.absorb", **{"in": dict(id=inst, lanes=[[1]], nblocks=1, bad=bad)}))
+        if len(ops) > 2:
+            hist.append(ops)
+    if not hist:
+        raise vlib.Infra("TLC simulation of CurlMC produced no behaviours\n" + vlib.tail(r.stdout + r.stderr))
+    return hist
+
+
+def confirm(ctx, binp, ev, bad, reason, env=None, tag=""):
+    """a stateful rejection is confirmed by re-running the whole trace it belongs to"""
     for tr in sorted({b["t"] for b in bad}):
         tev = [e for e in ev if e["t"] == tr]
-        dd = ctx.rundir("reproduce_t%d" % tr)
+        dd = ctx.rundir("reproduce%s_t%d" % (tag, tr))
         vlib.write_ndjson(dd + "/in.ndjson", [dict(op=e["op"], **{"in": e["in"]}) for e in tev])
-        vlib.run_driver(ctx, binp, "replay", dd + "/o.ndjson", infile=dd + "/in.ndjson")
+        vlib.run_driver(ctx, binp, "replay", dd + "/o.ndjson", infile=dd + "/in.ndjson", extra_env=env)
         again = vlib.read_ndjson(dd + "/o.ndjson")
         for b in [x for x in bad if x["t"] == tr]:
             a = again[b["i"] - 1]
@@ -45,9 +84,57 @@ def run(ctx):
                 slim = dict(op=b["op"], t=b["t"], i=b["i"], **{"in": b["in"]})
                 slim["out"] = {k: v for k, v in b["out"].items() if k not in ("fp", "audit")}
                 slim["history"] = [dict(op=e["op"], **{"in": e["in"]}) for e in tev[:b["i"]]]
-                ctx.bad.append(dict(event=slim, reason="a lane's output is not a function of its own history / differs from the Curl-P-81 sponge / wrong error answer"))
+                if tag:
+                    slim["build"] = tag
+                ctx.bad.append(dict(event=slim, reason=reason))
             else:
                 ctx.notes.append("non-reproduced rejection dropped (trace %d event %d)" % (tr, b["i"]))
+
+
+def sponge_histories(ctx, binp, n, audits, reason, env=None, tag=""):
+    """Leg T on real Curl objects (public API only): record stateful histories, let CurlTrace judge them."""
+    d = ctx.rundir("drv_sponge" + tag)
+    e2 = {"VERIF_FOCUS": "sponge", "VERIF_AUDIT": str(audits)}
+    e2.update(env or {})
+    vlib.run_driver(ctx, binp, "record", d + "/t.ndjson", n=n, extra_env=e2)
+    ev = vlib.read_ndjson(d + "/t.ndjson")
+    vlib.note_events(ctx, [e for e in ev if e["op"] not in ("curl.pool",)], keep=0)
+    bad = vlib.validate_trace(ctx, "CurlTrace", ev, stateful=True, chunk=1, label="T_sponge" + tag)
+    confirm(ctx, binp, ev, bad, reason, env=env, tag=tag)
+    return ev
+
+
+REASON = "a lane's output is not a function of its own history / differs from the Curl-P-81 sponge / wrong error answer"
+
+
+def run(ctx):
+    q = ctx.quick()
+    vlib.model_check(ctx, "CurlMC", constants={"Depth": 4 if q else 5, "W": 2 if q else 2}, timeout=1500)
+    if not q:
+        vlib.model_check(ctx, "CurlMC", constants={"Depth": 3, "W": 3}, timeout=1500, name="M_CurlMC_W3")
+    binp = driver(ctx)
+    ev = sponge_histories(ctx, binp, 16 if q else 300, 8 if q else 150, REASON)
+    for e in [x for x in ev if x["op"] in ("curl.absorb", "curl.squeeze")][:3]:
+        ctx.samples.append(dict(op=e["op"], **{"in": e["in"]}, err=e["out"].get("err")))
+    # leg G: TLC behaviours of the model replayed on real objects (absorbing after a squeeze is outside the property's
+    # domain and disabled in the model, so no history asks for it)
+    d = ctx.rundir("drv_g")
+    hist = tlc_histories(ctx, 12 if q else 200, 10)
+    gin = [o for h in hist for o in h]
+    vlib.write_ndjson(d + "/gin.ndjson", gin)
+    vlib.run_driver(ctx, binp, "replay", d + "/g.ndjson", infile=d + "/gin.ndjson")
+    g = vlib.read_ndjson(d + "/g.ndjson")
+    tno = 0
+    for e in g:                       # one trace per behaviour: a new trace starts at every curl.pool
+        if e["op"] == "curl.pool":
+            tno += 1
+            idx = 0
+        idx += 1
+        e["t"], e["i"] = tno, idx
+    ctx.legs.setdefault("G", []).append(dict(module="CurlMC (-simulate)", behaviours=len(hist), events=len(g)))
+    vlib.note_events(ctx, [e for e in g if e["op"] not in ("curl.pool",)], keep=0)
+    bad = vlib.validate_trace(ctx, "CurlTrace", g, stateful=True, chunk=1, label="T_tlc_behaviours")
+    confirm(ctx, binp, g, bad, REASON + " (history generated by TLC from CurlMC)", tag="_g")
     return vlib.finish(ctx, LEVEL, RULE, ASSUME,
                        technique="TLA+ spec CurlSponge (CurlMC refinement model + CurlTrace stateful history validation with TLC-evaluated Curl-P-81 anchors)")
 
